@@ -147,8 +147,8 @@ fn key_of(s: &Slip) -> SaitoUTXOSetKey {
 }
 
 impl Ctx {
-    async fn new(debug: bool) -> Ctx {
-        let params = Params { genesis_period: 100, ..Params::default() };
+    async fn new(debug: bool, heartbeat: u64) -> Ctx {
+        let params = Params { genesis_period: 100, heartbeat, ..Params::default() };
         let mut node = Node::new(&params, NODE_KEY);
         let mut builder = Node::new(&params, BUILDER_KEY);
         let keys: Vec<_> = (1..=4u8).map(keypair).collect();
@@ -440,31 +440,48 @@ impl Ctx {
     }
 
     // ------------------------------------------------------------ operations
-    /// `expect_accept`: the harness built a fresh valid transaction whose value inputs are
-    /// unspent and not spent by any pooled transaction (I3, user-visible form)
-    async fn op_submit(&mut self, tx: Transaction, label: &str, expect_accept: bool) {
+    /// Submits a transaction.  The oracle derives by itself whether the pool must take it
+    /// (I3, user-visible form): it validates against the ledger, its signature is not
+    /// pooled, and none of its value inputs is an input of a pooled transaction.
+    /// `intent` only documents what the generator meant to build.
+    async fn op_submit(&mut self, tx: Transaction, label: &str, intent: bool) {
         let pre = self.snap();
         let coq = format!("OAddTx ({})", self.coq_arrival(&tx));
         let sig = tx.signature;
         let vin: Vec<SaitoUTXOSetKey> = tx.from.iter().filter(|s| s.amount > 0).map(key_of).collect();
+        let valid_full = {
+            let mut c = tx.clone();
+            c.generate(&self.node.pk, 0, 0);
+            c.validate(&self.node.blockchain.utxoset, &self.node.blockchain, true)
+        };
+        let claimed = pre.all_input_keys();
+        let must_accept = valid_full
+            && tx.transaction_type == TransactionType::Normal
+            && !pre.txs.contains_key(&sig)
+            && vin.iter().all(|k| !claimed.contains(k));
         self.node.mempool.add_transaction_if_validates(tx, &self.node.blockchain).await;
         let post = self.snap();
         let accepted = post.txs.contains_key(&sig) && !pre.txs.contains_key(&sig);
         self.stat(&format!("submit:{}:{}", label, if accepted { "pooled" } else { "not-pooled" }));
-        if expect_accept && !accepted {
+        if must_accept != intent {
+            self.stat(&format!("submit:{}:oracle-expects-{}", label, if must_accept { "accept" } else { "reject" }));
+        }
+        let id = self.it.get(&sig);
+        if must_accept && !accepted {
             let blocking: Vec<SaitoUTXOSetKey> = vin.iter().filter(|k| pre.umap.contains(*k)).cloned().collect();
             let class = blocking.iter().filter_map(|k| self.stale_origin.get(k)).next().cloned();
-            let id = self.it.get(&sig);
             let ks: Vec<u64> = blocking.iter().map(|k| self.it.get(k)).collect();
             self.finding(
                 format!("I3: funds locked: fresh valid transaction {} spending unspent output(s) {:?}, which no pooled transaction spends, is rejected", id, ks),
                 if blocking.is_empty() { None } else { class },
             );
         }
+        if accepted && !valid_full {
+            self.finding(format!("I2: transaction {} does not validate but was pooled", id), None);
+        }
         self.check_invariants(OpKind::Submit, &pre, &post, &BTreeSet::new());
         let obs = self.observe(&post);
-        let id = self.it.get(&sig);
-        self.record(coq, format!("submit {} tx {} (expect_accept={}) -> {}", label, id, expect_accept, if accepted { "pooled" } else { "not pooled" }), obs);
+        self.record(coq, format!("submit {} tx {} (must_accept={}) -> {}", label, id, must_accept, if accepted { "pooled" } else { "not pooled" }), obs);
     }
 
     async fn op_add_gt(&mut self, target: SaitoHash, seed: u64) {
@@ -657,6 +674,13 @@ impl Ctx {
             stake_coq,
             gal::list(&extra)
         );
+        self.stat(&format!(
+            "bundle-conditions:env={}:work_needed={}:pool={}:{}",
+            env_ok,
+            if work_needed == 0 { "0" } else if work_needed <= pre.work { "<=cache" } else { ">cache" },
+            if pre.txs.is_empty() { "empty" } else { "nonempty" },
+            if block.is_some() { "block" } else { "none" }
+        ));
         // I4: a block and exactly its transactions gone, or nothing changed
         let kind;
         match &block {
@@ -726,7 +750,7 @@ impl Ctx {
 
     /// fork of two blocks from the parent of the tip: the first is added off the
     /// longest chain, the second reorganises
-    async fn op_reorg(&mut self, txs1: Vec<Transaction>, txs2: Vec<Transaction>) -> bool {
+    async fn op_reorg(&mut self, txs1: Vec<Transaction>, txs2: Option<Vec<Transaction>>) -> bool {
         // chain of the node, genesis first
         let mut chain: Vec<Block> = vec![];
         let mut h = self.node.blockchain.get_latest_block_hash();
@@ -764,9 +788,16 @@ impl Ctx {
             if self.debug { eprintln!("reorg: c1 not on chain"); }
             return false;
         }
+        let txs2 = match txs2 {
+            Some(t) => t,
+            None => {
+                let r1 = self.op_give_block(c1, "fork-1", true).await;
+                self.stat(&format!("offchain:{:?}", r1));
+                return r1 == AddClass::OffChain;
+            }
+        };
         self.nonce += 1;
-        let gt2 = Ctx::needs_gt(&forker, c1.hash) || true;
-        let c2 = match make_block(&forker, c1.hash, c1.timestamp + GAP, txs2, gt2, self.nonce).await {
+        let c2 = match make_block(&forker, c1.hash, c1.timestamp + GAP, txs2, true, self.nonce).await {
             Ok(b) => b,
             Err(e) => { if self.debug { eprintln!("reorg: c2 {}", e); } return false },
         };
@@ -838,12 +869,13 @@ async fn scripted(c: &mut Ctx, which: u64) {
             let other: Vec<Slip> = free.iter().filter(|s| s.public_key == c.keys[3].0).cloned().collect();
             let t1 = c.build_tx(&other[0..1], 10, 0, false);
             let t2 = c.build_tx(&other[1..2], 10, 0, false);
-            if c.op_reorg(vec![t1], vec![t2]).await {
+            if c.op_reorg(vec![t1], Some(vec![t2])).await {
                 let f = c.build_tx(&mine[0..1], 20, 1, true);
                 c.op_submit(f, "valid", true).await;
             }
         }
-        // a transaction naming the same input twice: Block::create fails after draining
+        // a transaction naming the same input twice (pooled before fix 0fedb86 of
+        // Transaction::validate; then Block::create fails after draining the pool)
         2 => {
             let a = c.build_tx(&mine[0..1], 50, 0, true);
             c.op_submit(a, "valid", true).await;
@@ -863,7 +895,23 @@ async fn scripted(c: &mut Ctx, which: u64) {
             c.op_bundle(GAP, 1).await;
             let b = c.build_tx(&mine[0..1], 30, 1, true);
             c.op_submit(b, "conflicting", false).await;
+            // the pool now holds a double spend: Block::create fails after the drain
             c.op_bundle(GAP, 0).await;
+            let f = c.build_tx(&mine[0..1], 20, 2, true);
+            c.op_submit(f, "valid", true).await;
+        }
+        // a block off the longest chain contains a pooled transaction: the transaction is
+        // deleted from the pool although nothing confirmed it, its input stays reserved
+        4 => {
+            let other: Vec<Slip> = free.iter().filter(|s| s.public_key == c.keys[3].0).cloned().collect();
+            let t0 = c.build_tx(&other[0..1], 10, 0, false);
+            c.op_peer_block(vec![t0], false, false, "peer-unrelated").await;
+            let a = c.build_tx(&mine[0..1], 50, 0, true);
+            c.op_submit(a.clone(), "valid", true).await;
+            if c.op_reorg(vec![a], None).await {
+                let f = c.build_tx(&mine[0..1], 20, 1, true);
+                c.op_submit(f, "valid", true).await;
+            }
         }
         // plain life cycle: arrivals, conflict and duplicate rejected, bundle, peer block
         _ => {
@@ -1022,7 +1070,7 @@ async fn random_case(c: &mut Ctx, rng: &mut Rng, len: usize) {
                 let seed = c.nonce;
                 c.op_add_gt(tip.hash, seed).await;
             }
-            let gap = *rng.pick(&[GAP, GAP, GAP, 6000, 150, 40]);
+            let gap = *rng.pick(&[GAP, GAP, 30_000, 9000, 6000, 5200, 150]);
             let after = if rng.chance(1, 4) { 1 } else { 0 };
             c.op_bundle(gap, after).await;
         } else if r < 94 {
@@ -1058,9 +1106,20 @@ async fn random_case(c: &mut Ctx, rng: &mut Rng, len: usize) {
             if ins2.is_empty() {
                 continue;
             }
-            let t1 = c.build_tx(&ins1, 10, rng.below(4) as usize, false);
+            let mut txs1 = vec![c.build_tx(&ins1, 10, rng.below(4) as usize, false)];
             let t2 = c.build_tx(&ins2, 10, rng.below(4) as usize, false);
-            c.op_reorg(vec![t1], vec![t2]).await;
+            if rng.chance(1, 3) {
+                // the fork carries a pooled transaction whose inputs exist at the fork point
+                for t in pooled.iter().take(1) {
+                    if t.from.iter().all(|s| s.block_id < tip_id && key_of(s) != key_of(&ins1[0]) && key_of(s) != key_of(&ins2[0]))
+                        && t.from.iter().map(key_of).collect::<BTreeSet<_>>().len() == t.from.len()
+                    {
+                        txs1.push(t.clone());
+                    }
+                }
+            }
+            let second = if rng.chance(1, 4) { None } else { Some(vec![t2]) };
+            c.op_reorg(txs1, second).await;
         }
     }
 }
@@ -1075,8 +1134,11 @@ struct CaseOut {
 }
 
 async fn run_case(kind: u64, seed: u64, len: usize, debug: bool) -> CaseOut {
-    let mut c = Ctx::new(debug).await;
     let mut rng = Rng::new(seed);
+    // a long heartbeat keeps the burn-fee curve above zero for 20 s, so that
+    // can_bundle_block's work comparison matters
+    let heartbeat = if kind >= 100 && rng.chance(1, 2) { 10_000 } else { 100 };
+    let mut c = Ctx::new(debug, heartbeat).await;
     if kind < 100 {
         scripted(&mut c, kind).await;
     } else {
@@ -1110,13 +1172,13 @@ fn main() {
         Ok(v) => v.parse().unwrap(),
         Err(_) => {
             if args.tier == "thorough" {
-                1500
+                12000
             } else {
-                220
+                1500
             }
         }
     };
-    let mut plan: Vec<(u64, u64, usize)> = (0..5u64).map(|k| (k, 0, 0)).collect();
+    let mut plan: Vec<(u64, u64, usize)> = (0..6u64).map(|k| (k, 0, 0)).collect();
     for _ in 0..nrandom {
         let len = rng.range(6, 22) as usize;
         plan.push((100, rng.next(), len));
@@ -1177,9 +1239,17 @@ fn main() {
         }
         summary.evaluations += 1;
     }
-    let header = "From Saito Require Import Base Mempool.\n\
+    // C14_MODEL=repair compares with the model of the repair candidate (only meaningful
+    // when the harness is built against a tree carrying that patch; never set by bin/check)
+    let header = if std::env::var("C14_MODEL").map(|v| v == "repair").unwrap_or(false) {
+        "From Saito Require Import Base Mempool MempoolRepair.\n\
         Definition check (c : list N * list op * list (list (list N))) : bool :=\n\
-        let '(g, ops, expected) := c in eqb_lllN (trace (init g) ops) expected.";
+        let '(g, ops, expected) := c in eqb_lllN (trace_r (init g) ops) expected."
+    } else {
+        "From Saito Require Import Base Mempool.\n\
+        Definition check (c : list N * list op * list (list (list N))) : bool :=\n\
+        let '(g, ops, expected) := c in eqb_lllN (trace (init g) ops) expected."
+    };
     let files = gal::write_shards(
         &format!("{}/cases", args.out),
         "C14",
